@@ -11,9 +11,11 @@
 EXTENDS AttrSurface, TLC, Json, SequencesExt
 
 CONSTANTS MaxItems,   \* literals have at most this many items
-          FullLen     \* literals up to this length get the full combination matrix, longer ones a reduced one
+          FullLen,    \* literals up to this length get the full combination matrix, longer ones a reduced one
+          McTypes     \* declared types of the full matrix (a subset of AttTypes)
 
 \* a ' ' TAB LF CR (CR LF arises from CR followed by LF) &#32; &#9; &#10; &#13; &#65; &lt; &amp; &e1; &e2; &e3;
+\* with e1 = "<CR><LF>x ", e2 = "a&#10;b", e3 = "&e1;<TAB>z" (AttrSurface.McEnts)
 \* (a tuple, not a set: TLC does not compare records of different shapes)
 Alphabet ==
   << CI(97), CI(32), CI(9), CI(10), CI(13),
@@ -65,7 +67,7 @@ WellFormedSpace == ItemsOk(s, McEnts) /\ DocOk(McDoc([items |-> s, ty |-> "", dk
 (***************************************************************************)
 (* The combination matrix                                                  *)
 (***************************************************************************)
-McTypes == {"CDATA", "ID", "NMTOKEN", "NMTOKENS", "ENUM"}
+ASSUME McTypes \subseteq AttTypes
 
 FullMatrix ==
   { [ty |-> ty, dk |-> dk, layout |-> lay, written |-> TRUE] :
@@ -111,8 +113,8 @@ EffectiveTheorems(abs) ==
      /\ (abs.layout = "two" <=> [n |-> NmB, v |-> <<98, 118>>, spec |-> FALSE] \in eff)
      /\ \A x \in eff : x.n \in {NmA, NmB}                                     \* c #IMPLIED never appears
      /\ Cardinality(eff) = (IF abs.written \/ defaulted THEN 1 ELSE 0) + (IF abs.layout = "two" THEN 1 ELSE 0)
-     /\ \A n \in AskNames(d, 1) \cup {NmC} :
-           Lookup(eff, n) = (IF \E x \in eff : x.n = n THEN (CHOOSE x \in eff : x.n = n).v ELSE <<>>)
+     /\ Lookup(eff, NmC) = <<>>                                               \* get_attribute of an absent name
+     /\ (abs.written \/ defaulted => Lookup(eff, NmA) = Normalize(abs.items, abs.ty, McEnts))
 
 Case(abs) ==
   LET d == McDoc(abs)
